@@ -373,6 +373,12 @@ func (k *updatingKeyPair) handleAckFor(pnum packetNumber) {
 		k.phase ^= keyPhaseBit
 		k.r.update()
 		k.w.update()
+		// Don't initiate another update right away. If the peer initiated
+		// this one, updateAfter has not been advanced, and a peer which is
+		// still waiting for an ack to finish the update (its keys are one
+		// phase behind ours) cannot read packets two phases ahead of it,
+		// including the acks it is waiting for.
+		k.updateAfter = max(k.updateAfter, k.minSent+(1<<22))
 	}
 }
 
